@@ -37,35 +37,9 @@ def _range_covers_all(it: ast.AST, n_expr: str) -> bool:
 
 
 def _fold_int_tuple(e: ast.AST, env: Dict[str, int]):
-    """Constant-fold integer / tuple-of-integer expressions (tuple, range, +, -, names from env, X.ndim)."""
-    if isinstance(e, ast.Constant) and isinstance(e.value, int):
-        return e.value
-    if isinstance(e, ast.Name):
-        if e.id in env:
-            return env[e.id]
-        raise AnalysisError(f"unknown name in permutation expression: {e.id}")
-    if isinstance(e, ast.Attribute) and e.attr == "ndim":
-        return env["__ndim__"]
-    if isinstance(e, ast.Tuple):
-        return tuple(_fold_int_tuple(x, env) for x in e.elts)
-    if isinstance(e, ast.BinOp) and isinstance(e.op, (ast.Add, ast.Sub)):
-        a, b = _fold_int_tuple(e.left, env), _fold_int_tuple(e.right, env)
-        if isinstance(e.op, ast.Add):
-            return a + b
-        return a - b
-    if isinstance(e, ast.UnaryOp) and isinstance(e.op, ast.USub):
-        return -_fold_int_tuple(e.operand, env)
-    if isinstance(e, (ast.GeneratorExp, ast.ListComp)) and len(e.generators) == 1 and isinstance(e.generators[0].target, ast.Name) and not e.generators[0].ifs:
-        src = _fold_int_tuple(e.generators[0].iter, env)
-        return tuple(_fold_int_tuple(e.elt, {**env, e.generators[0].target.id: v}) for v in src)
-    if isinstance(e, ast.Call):
-        cn = call_name(e)
-        args = [_fold_int_tuple(a, env) for a in e.args]
-        if cn == "range":
-            return tuple(range(*args))
-        if cn in ("tuple", "list"):
-            return tuple(args[0])
-    raise AnalysisError(f"permutation expression outside the integer-tuple subset: {norm1(e)}")
+    """Constant-fold integer / tuple-of-integer expressions (shared evaluator in rules/axes.py)."""
+    from .axes import fold_int_tuple
+    return fold_int_tuple(e, env)
 
 
 def _loop_smoother_var(lp: ast.For):
@@ -140,41 +114,9 @@ def _eval_int_n(e: ast.AST, N: int, env) -> int:
 
 
 def _apply_reorder(e: ast.AST, base: str, axes, env):
-    """Axis order (in terms of the labels in `axes`) of expression e built from the array named `base` by
-    transpose / np.transpose / np.moveaxis / np.swapaxes / .swapaxes (innermost first)."""
-    if isinstance(e, ast.Name):
-        return tuple(axes) if e.id == base else None
-    if isinstance(e, ast.Call):
-        cn = call_name(e)
-        if isinstance(e.func, ast.Attribute) and e.func.attr in ("transpose", "swapaxes") and cn not in ("np.transpose", "np.swapaxes"):
-            inner = _apply_reorder(e.func.value, base, axes, env)
-            args = list(e.args)
-        elif cn in ("np.transpose", "np.moveaxis", "np.swapaxes", "numpy.transpose", "numpy.moveaxis", "numpy.swapaxes"):
-            inner = _apply_reorder(e.args[0], base, axes, env)
-            args = list(e.args[1:])
-        else:
-            return None
-        if inner is None:
-            return None
-        kind = e.func.attr if isinstance(e.func, ast.Attribute) else cn.split(".")[-1]
-        nd = len(inner)
-        if kind == "transpose":
-            perm = _fold_int_tuple(args[0] if len(args) == 1 else ast.Tuple(elts=args), env)
-            if isinstance(perm, int):
-                perm = (perm,)
-            return tuple(inner[j] for j in perm)
-        if kind == "swapaxes":
-            a, b = (_fold_int_tuple(x, env) % nd for x in args[:2])
-            lst = list(inner)
-            lst[a], lst[b] = lst[b], lst[a]
-            return tuple(lst)
-        if kind == "moveaxis":
-            src, dst = (_fold_int_tuple(x, env) % nd for x in args[:2])
-            lst = list(inner)
-            x = lst.pop(src)
-            lst.insert(dst, x)
-            return tuple(lst)
-    return None
+    """Axis order of expression e built from the array named `base` (shared evaluator in rules/axes.py)."""
+    from .axes import apply_reorder
+    return apply_reorder(e, base, tuple(axes), env)
 
 
 def run(ctx) -> None:
